@@ -34,9 +34,9 @@ Theorem C12_code_exceptions :
      by the handlers around the variant call *)
   /\ catches non_mapping_handler [ETypeError] = true /\ catches hash_handler [ETypeError] = true
   /\ catches key_lookup_handler [ETypeError] = false /\ catches variant_call_handler [ETypeError] = false
-  (* the call of the selected variant sits INSIDE the region guarded by variant_call_handler / retry_handler: this is the
-     clause `OKeyErr -> refill_retry` / `OKeyErr -> ONotFound` of Discr.field_body (known finding variant-keyerror-misreported) *)
-  /\ variant_call_guarded = true.
+  (* the call of the selected variant sits OUTSIDE the regions guarded by variant_call_handler / retry_handler (fix
+     C12-variant-keyerror-misreported): a KeyError of the variant surfaces, Discr.field_body has no OKeyErr clause *)
+  /\ variant_call_guarded = false.
 Proof. vm_compute. repeat split. Qed.
 Print Assumptions C12_code_exceptions.
 
